@@ -169,4 +169,104 @@ theorem findFirstOfCh_abs {s : FStr} (hs : WF c s) (ch : Byte) (pos : Nat) (neg 
       · simp
       · simp
 
+theorem memN_eq {a : List Byte} (x : Byte) (fuel : Nat) : ∀ i, i + fuel ≤ a.length →
+    memN a fuel i x = .ok (((a.drop i).take fuel).contains x) := by
+  induction fuel with
+  | zero => intro i _; unfold memN; simp
+  | succ f ih =>
+    intro i hi
+    have hil : i < a.length := by omega
+    unfold memN get1
+    rw [List.getElem?_eq_getElem hil]
+    simp only [bindR_ok]
+    rw [List.drop_eq_getElem_cons hil, List.take_succ_cons, List.contains_cons]
+    by_cases h : a[i] = x
+    · rw [if_pos h]; simp [h]
+    · rw [if_neg h, ih (i + 1) (by omega)]
+      have h' : ¬ x = a[i] := fun e => h e.symm
+      simp [h']
+
+/-- the shape shared by the set searches: a membership test that is right on the characters held -/
+theorem scanSet_abs {s : FStr} (hs : WF c s) {p : Byte → Res Bool} {set : List Nat}
+    (hp : ∀ x ∈ abs s, p x = .ok (set.contains x)) {pos : Nat} (hpos : pos ≤ s.len) (neg : Bool) :
+    scanLoop s (fun x => if neg then notR (p x) else p x) (s.len - pos) pos =
+      .ok (if neg then StdString.findFirstNotOf (abs s) set pos else StdString.findFirstOf (abs s) set pos) := by
+  have h1 := hs.1; have h2 := hs.2.1
+  have hl := abs_length hs
+  unfold StdString.findFirstNotOf StdString.findFirstOf StdString.findFirst
+  rw [hl]
+  by_cases hlt : pos ≥ s.len
+  · have hf : s.len - pos = 0 := by omega
+    rw [if_pos hlt, if_pos hlt, hf]
+    unfold scanLoop
+    simp
+  · rw [if_neg hlt, if_neg hlt]
+    cases neg with
+    | true =>
+      refine (scanLoop_abs_mem hs (q := fun x => !set.contains x) (fun x hx => ?_) _ _ (by omega)).trans ?_
+      · simp only [if_true]; rw [hp x hx]; rfl
+      · simp
+    | false =>
+      refine (scanLoop_abs_mem hs (q := fun x => set.contains x) (fun x hx => ?_) _ _ (by omega)).trans ?_
+      · simp only [Bool.false_eq_true, if_false]; rw [hp x hx]
+      · simp
+
+theorem findFirstOfPN_abs {s : FStr} (hs : WF c s) {a : List Byte} (pos : Nat) {count : Nat}
+    (ha : count ≤ a.length) (hc0 : 0 < count) (neg : Bool) :
+    findFirstOfPN s a pos count neg =
+      .ok (if neg then StdString.findFirstNotOf (abs s) (a.take count) pos
+           else StdString.findFirstOf (abs s) (a.take count) pos) := by
+  have hl := abs_length hs
+  unfold findFirstOfPN
+  by_cases hp : pos > s.len
+  · rw [if_pos (Or.inl hp)]
+    unfold StdString.findFirstNotOf StdString.findFirstOf StdString.findFirst
+    have hge : pos ≥ s.len := by omega
+    rw [hl, if_pos hge, if_pos hge]; simp
+  · rw [if_neg (by omega)]
+    exact scanSet_abs hs (p := fun x => memN a count 0 x) (set := a.take count)
+      (fun x _ => by rw [memN_eq x count 0 (by omega), List.drop_zero]) (by omega) neg
+
+theorem strchr_eq {x : Nat} (hx : x ≠ 0) : ∀ (a : List Nat) (k m : Nat), cstrlenAux a k = .ok m →
+    ∃ n, m = k + n ∧ strchr a x = .ok ((a.take n).contains x)
+  | [], k, m, h => by unfold cstrlenAux at h; cases h
+  | b :: bs, k, m, h => by
+    unfold cstrlenAux at h
+    by_cases hb : b = 0
+    · rw [if_pos hb] at h
+      cases h
+      refine ⟨0, rfl, ?_⟩
+      unfold strchr
+      rw [if_neg (show ¬ b = x by omega), if_pos hb]; simp
+    · rw [if_neg hb] at h
+      obtain ⟨n, hm, hs⟩ := strchr_eq hx bs (k + 1) m h
+      refine ⟨n + 1, by omega, ?_⟩
+      unfold strchr
+      rw [List.take_succ_cons, List.contains_cons]
+      by_cases hbx : b = x
+      · rw [if_pos hbx]; simp [hbx]
+      · rw [if_neg hbx, if_neg hb, hs]
+        have h' : ¬ x = b := fun e => hbx e.symm
+        simp [h']
+
+theorem findFirstOfImpl_abs {s : FStr} (hs : WF c s) {a : List Byte} {n : Nat} (hlen : cstrlen a = .ok n)
+    (pos : Nat) (hn : 0 < n) (hx : (0 : Byte) ∉ abs s) (neg : Bool) :
+    findFirstOfImpl s a pos n neg =
+      .ok (if neg then StdString.findFirstNotOf (abs s) (a.take n) pos
+           else StdString.findFirstOf (abs s) (a.take n) pos) := by
+  have hl := abs_length hs
+  unfold findFirstOfImpl
+  by_cases hp : pos > s.len
+  · rw [if_pos (Or.inl hp)]
+    unfold StdString.findFirstNotOf StdString.findFirstOf StdString.findFirst
+    have hge : pos ≥ s.len := by omega
+    rw [hl, if_pos hge, if_pos hge]; simp
+  · rw [if_neg (by omega)]
+    refine scanSet_abs hs (p := fun x => strchr a x) (set := a.take n) (fun x hm => ?_) (by omega) neg
+    have hx0 : x ≠ 0 := fun e => hx (e ▸ hm)
+    obtain ⟨n', hn', hs'⟩ := strchr_eq hx0 a 0 n hlen
+    have : n' = n := by omega
+    subst this
+    exact hs'
+
 end CelmaVerif.FixedString
